@@ -72,6 +72,7 @@ func prove(t *trie.Trie, key []byte) [][]byte {
 // TableCfg mirrors the constants of an EvmProof configuration.
 type TableCfg struct {
 	G0, Best, Wait, ForkAt, DepositAt uint64
+	LeadZ                             uint64 // leading zero bytes of Keccak(M): 0 or 1
 }
 
 type proofWorld struct {
@@ -103,8 +104,8 @@ type chainDriver interface {
 
 func (pw *proofWorld) mkStorage(entries map[string][]byte, filler int) *storTrie {
 	t := newTrie()
-	for name, word := range entries {
-		enc, err := rlp.EncodeToBytes(trimLeft(word))
+	for name, word := range entries { // word: the byte string the leaf decodes to, exactly as given
+		enc, err := rlp.EncodeToBytes(word)
 		vio.Must(err)
 		slot := pw.slots[name]
 		t.Update(crypto.Keccak256(slot.Bytes()), enc)
@@ -162,31 +163,47 @@ func newProofWorld(r *Router, cfg TableCfg, seed uint64, variant int) *proofWorl
 	for i := 0; i < 2+pw.rng.Intn(6); i++ {
 		pw.fill = append(pw.fill, ecommon.BytesToAddress(rb(20)))
 	}
-	for _, m := range []string{"M", "N"} {
-		p := &scom.MakeTxParam{TxHash: rb(32), CrossChainID: rb(1 + pw.rng.Intn(32)), FromContractAddress: rb(20), ToChainID: uint64(2 + pw.rng.Intn(5)),
-			ToContractAddress: rb(20), Method: "unlock", Args: rb(pw.rng.Intn(80))}
-		sink := common.NewZeroCopySink(nil)
-		p.Serialization(sink)
-		pw.msgs[m] = sink.Bytes()
+	// messages are ground (a counter in the arguments) until their hashes have the shape the model assumes:
+	// Keccak(M) starts with exactly LeadZ zero bytes, Keccak(N) with none, and the last two bytes of Keccak(M) are non-zero
+	mk := func(ok func(h []byte) bool) []byte {
+		base := &scom.MakeTxParam{TxHash: rb(32), CrossChainID: rb(1 + pw.rng.Intn(32)), FromContractAddress: rb(20), ToChainID: uint64(2 + pw.rng.Intn(5)),
+			ToContractAddress: rb(20), Method: "unlock"}
+		pre := rb(pw.rng.Intn(60))
+		for ctr := uint64(0); ; ctr++ {
+			base.Args = append(append([]byte{}, pre...), byte(ctr), byte(ctr>>8), byte(ctr>>16), byte(ctr>>24))
+			sink := common.NewZeroCopySink(nil)
+			base.Serialization(sink)
+			if ok(crypto.Keccak256(sink.Bytes())) {
+				return sink.Bytes()
+			}
+		}
 	}
-	for _, s := range []string{"S1", "S2", "S3", "S4"} {
+	pw.msgs["M"] = mk(func(h []byte) bool {
+		if h[30] == 0 || h[31] == 0 {
+			return false
+		}
+		if cfg.LeadZ == 1 {
+			return h[0] == 0 && h[1] != 0
+		}
+		return h[0] != 0
+	})
+	pw.msgs["N"] = mk(func(h []byte) bool { return h[0] != 0 })
+	for _, s := range []string{"S1", "S2", "S3", "S4", "S5", "S6", "S7", "S8", "S9"} {
 		pw.slots[s] = ecommon.BytesToHash(rb(32))
 	}
 	kM, kN := crypto.Keccak256(pw.msgs["M"]), crypto.Keccak256(pw.msgs["N"])
-	if variant%2 == 1 {
-		// exercise the leading-zero stripping of storage words: search a message whose hash starts with a zero byte
-		for i := 0; i < 2000 && kM[0] != 0; i++ {
-			p := &scom.MakeTxParam{TxHash: rb(32), CrossChainID: rb(8), FromContractAddress: rb(20), ToChainID: 3, ToContractAddress: rb(20), Method: "unlock", Args: rb(12)}
-			sink := common.NewZeroCopySink(nil)
-			p.Serialization(sink)
-			pw.msgs["M"] = sink.Bytes()
-			kM = crypto.Keccak256(pw.msgs["M"])
+	// slots of the registered contract whose values merely end like Keccak(M), or end in it (EvmProof.tla S5..S9)
+	others := map[string][]byte{"S5": kM[31:], "S6": kM[30:], "S7": kM[1:], "S8": append([]byte{7}, kM...), "S9": {}}
+	with := func(m map[string][]byte) map[string][]byte {
+		for k, v := range others {
+			m[k] = v
 		}
+		return m
 	}
 	nf := 1 + pw.rng.Intn(12)
-	pw.stDep = pw.mkStorage(map[string][]byte{"S1": kM, "S2": kN, "S3": kM}, nf)
-	pw.stPre = pw.mkStorage(map[string][]byte{"S2": kN}, nf)
-	pw.stEvil = pw.mkStorage(map[string][]byte{"S1": kM, "S4": []byte("junk")}, 1)
+	pw.stDep = pw.mkStorage(with(map[string][]byte{"S1": trimLeft(kM), "S2": trimLeft(kN), "S3": trimLeft(kM)}), nf)
+	pw.stPre = pw.mkStorage(with(map[string][]byte{"S2": trimLeft(kN)}), nf)
+	pw.stEvil = pw.mkStorage(map[string][]byte{"S1": trimLeft(kM), "S4": []byte("junk")}, 1)
 	roots := map[uint64]ecommon.Hash{}
 	for h := cfg.G0; h <= cfg.Best; h++ {
 		st := pw.stPre
@@ -302,6 +319,16 @@ func (pw *proofWorld) claimJSON(r *Row) ([]byte, ecommon.Hash) {
 		slot = pw.slots["S3"]
 	case "absent":
 		slot = pw.slots["S4"]
+	case "sfx1":
+		slot = pw.slots["S5"]
+	case "sfx2":
+		slot = pw.slots["S6"]
+	case "sfx31":
+		slot = pw.slots["S7"]
+	case "long33":
+		slot = pw.slots["S8"]
+	case "empty":
+		slot = pw.slots["S9"]
 	}
 	sn := pw.mutate(prove(st.t, slot.Bytes()), r.R.Sk)
 	addrField := pw.ccm
@@ -335,7 +362,7 @@ type rowResult struct {
 	Claim    string `json:"claim,omitempty"`
 }
 
-// proofTable: args <router> <g0> <best> <wait> <forkAt> <depositAt> <variants>; stdin ROW lines.
+// proofTable: args <router> <g0> <best> <wait> <forkAt> <depositAt> <variants> <leadZ>; stdin ROW lines.
 func proofTable(args []string) {
 	r := routerByName(args[0])
 	u := func(s string) uint64 {
@@ -345,6 +372,9 @@ func proofTable(args []string) {
 	}
 	cfg := TableCfg{G0: u(args[1]), Best: u(args[2]), Wait: u(args[3]), ForkAt: u(args[4]), DepositAt: u(args[5])}
 	variants := int(u(args[6]))
+	if len(args) > 7 {
+		cfg.LeadZ = u(args[7])
+	}
 	lines := vio.ReadLines()
 	var rows []*Row
 	for _, ln := range lines {
